@@ -81,9 +81,9 @@ pub fn spec(property: &str, tier: &str) -> Option<CheckSpec> {
 			"chainsim",
 			"exploration",
 			if quick { 16 } else { 128 },
-			"case = fork tree whose honest spends/locks are biased to sit exactly on the thresholds (coinbase spent at creation+maturity, lock_height == height, NRD duplicate at exactly relative_height, on every fork) plus byzantine blocks one step inside each threshold (maturity-1/-2, lock_height+1, NRD distance-1), evaluated on the fork being extended and re-evaluated across reorgs; honest blocks must be accepted (including through rewind_and_apply_fork), byzantine ones refused",
-			vec!["AutomatedTesting chain parameters (coinbase maturity 3, NRD from header version 4)", "pool clause (add_to_pool) is checked by the poolsim engine under C14/C13"],
-			vec!["reorg", "fork_block"],
+			"case = fork tree whose honest spends/locks are biased to sit exactly on the thresholds (coinbase spent at creation+maturity, lock_height == height, NRD duplicate at exactly relative_height, on every fork) plus byzantine blocks one step inside each threshold (maturity-1/-2, lock_height+1, NRD distance-1), evaluated on the fork being extended and re-evaluated across reorgs; honest blocks must be accepted (including through rewind_and_apply_fork), byzantine ones refused. Every fourth case runs the pool clause instead (poolsim): seeded interleavings of submissions that spend a coinbase one block before / exactly at maturity and carry lock heights of next block / beyond, blocks that move the thresholds and reorgs that change the fork they refer to; add_to_pool must refuse / accept exactly as the rule model says",
+			vec!["AutomatedTesting chain parameters (coinbase maturity 3, NRD from header version 4)"],
+			vec!["reorg", "fork_block", "just_mature_coinbase_submitted", "immature_coinbase_submitted", "lock_next_submitted", "lock_future_submitted"],
 		)),
 		"C04" => Some(s(
 			"chainsim",
@@ -1013,6 +1013,15 @@ pub fn run_case(property: &str, tier: &str, seed: u64, case: u64) -> CaseResult 
 				r
 			} else {
 				crate::storesim::case(tier, seed, case)
+			}
+		}
+		"C13" => {
+			// pool clause (add_to_pool refuses immature spends / future lock heights, accepts at the
+			// boundary) on every fourth case
+			if case % 4 == 3 {
+				crate::poolsim::case_c13(tier, seed, case)
+			} else {
+				chainsim_case(property, tier, seed, case)
 			}
 		}
 		p if CHAINSIM_PROPS.contains(&p) => chainsim_case(property, tier, seed, case),
